@@ -329,13 +329,36 @@ func c16A(c *h.Ctx) {
 			results[i] = porcupine.Operation{ClientId: i + 1, Input: in, Output: out, Call: call, Return: ret}
 		}(i)
 	}
+	// top-ups race with the membership calls (for seated players, for players leaving right now, for nobody at all):
+	// they are not part of the seat history, but they share the engine lock with it
+	for k := 2 + r.Intn(3); k > 0; k-- {
+		id := "ghost"
+		if len(existing) > 0 && r.Intn(3) > 0 {
+			id = existing[r.Intn(len(existing))]
+		}
+		wg.Add(1)
+		go func(id string) {
+			defer wg.Done()
+			<-start
+			te.PlayerRedeemChips(pt.JoinPlayer{PlayerID: id, RedeemChips: 5})
+		}(id)
+	}
 	close(start)
 	done := make(chan struct{})
 	go func() { wg.Wait(); close(done) }()
 	select {
 	case <-done:
 	case <-time.After(20 * time.Second):
-		c.Inconclusive("membership storm did not finish within 20s (possible deadlock)")
+		held := true
+		for i := 0; i < 20 && held; i++ {
+			held = pt.VerifEngineLockHeld(te)
+			time.Sleep(100 * time.Millisecond)
+		}
+		if held {
+			c.Violate("C16/engine-lock-left-held", "a storm of concurrent reservations, departures, batch updates and top-ups has not finished after 20 s and the engine lock is found held at every probe of a further 2 s: one of the calls returned without releasing it", map[string]interface{}{"seats": seats})
+			return
+		}
+		c.Inconclusive("membership storm did not finish within 20s")
 		return
 	}
 	ops = append(ops, results...)
@@ -895,7 +918,8 @@ func c16D(c *h.Ctx) {
 
 // ---- race classification --------------------------------------------------
 
-var teLocked = []string{"UpdateTablePlayers", "PlayerReserve", "PlayerRedeemChips", "PlayersLeave", "PlayerReady", "PlayerPay", "PlayerBet", "PlayerRaise", "PlayerCall", "PlayerAllin", "PlayerCheck", "PlayerFold", "PlayerPass", "tableGameOpen", "updateCurrentPlayerGameStatistics"}
+// (PlayerRedeemChips is not listed: it publishes its events after releasing the lock, only its bankroll change is serialised)
+var teLocked = []string{"UpdateTablePlayers", "PlayerReserve", "PlayersLeave", "PlayerReady", "PlayerPay", "PlayerBet", "PlayerRaise", "PlayerCall", "PlayerAllin", "PlayerCheck", "PlayerFold", "PlayerPass", "tableGameOpen", "updateCurrentPlayerGameStatistics"}
 var smLocked = []string{"AssignSeats", "RandomAssignSeats", "RemoveSeats", "JoinPlayers", "UpdatePlayerHasChips", "InitPositions", "RotatePositions", "IsPlayerActive", "ListPlayerSeatsFromDealer"}
 
 func lockedEntry(stack []string, recv string, names []string) string {
